@@ -212,6 +212,12 @@ pub fn wide_fake(x: u64, y: u64) -> u128 {
 }
 
 // ---- signature family for the forced boolean gate (C10) ---------------------------------------
+/// forced to `true` through the same injector before every gate request: whatever the request's
+/// outcome, this one stays forced until the injector goes away
+#[inline(never)]
+fn bs_companion(x: u32) -> bool {
+    black_box(x) == 777
+}
 #[inline(never)]
 fn bs_bool0() -> bool {
     black_box(false)
@@ -452,6 +458,10 @@ pub fn execute(sc: &ProbeScenario, sh: &Shared) -> Value {
             let (name, is_bool, ptr, addr) = sig_entry(sc.sig);
             let before: Vec<u8> = unsafe { std::slice::from_raw_parts(addr as *const u8, 16).to_vec() };
             let mut inj = InjectorPP::new();
+            inj.when_called(injectorpp::func!(fn (bs_companion)(u32) -> bool)).will_return_boolean(true);
+            if !black_box(bs_companion as fn(u32) -> bool)(1) {
+                v("forced-boolean-not-returned", &["C10"], "the companion function was forced to true but returns false".into());
+            }
             let mark = interpose::ledger_len();
             interpose::arm(true);
             sh.note(PH_INSTALL, 0, sc.sig as u64, 0);
@@ -517,7 +527,16 @@ pub fn execute(sc: &ProbeScenario, sh: &Shared) -> Value {
                     }
                 }
             }
+            // an accepted forced value stays in force while the injector lives, whatever was
+            // requested (and refused) through the same injector afterwards
+            if !black_box(bs_companion as fn(u32) -> bool)(1) {
+                v("earlier-forced-boolean-lost-after-a-later-request", &["C10"], format!("`{name}` ({}): after this request the companion function, forced to true earlier through the same injector, returns false again", sc.entry));
+            }
+            calls += 2;
             drop(inj);
+            if black_box(bs_companion as fn(u32) -> bool)(1) {
+                v("not-restored-after-scope-exit", &["C02"], "the companion function still returns the forced value after drop".into());
+            }
             let restored: Vec<u8> = unsafe { std::slice::from_raw_parts(addr as *const u8, 16).to_vec() };
             if restored != before {
                 v("not-restored-after-scope-exit", &["C02"], format!("`{name}`: entry bytes differ after drop"));
